@@ -735,6 +735,19 @@ func runC05(c *Ctx) error {
 		v := putUvarint(1<<31 - 1)
 		mut := append(append([]byte{}, hraw[:len(hraw)-2]...), byte(len(v)))
 		do(mcase{entry: "header", in: append(mut, v...), how: "regression-suplink-count", huge: true})
+		// counts chosen so that count*k wraps around 2^32 to a small number (a guard written as
+		// "count * minimalElementSize > remaining" in 32-bit arithmetic lets them through),
+		// followed by enough payload for such a guard to pass
+		for k := uint64(3); k <= 130; k++ {
+			if k > 48 && k%7 != 0 && k != 97 && k != 128 {
+				continue
+			}
+			cnt := (uint64(1)<<32 + k - 1) / k
+			v := putUvarint(cnt)
+			body := append(append([]byte{}, v...), make([]byte, 160)...)
+			mut := append(append([]byte{}, hraw[:len(hraw)-2]...), putUvarint(uint64(len(body)))...)
+			do(mcase{entry: "header", in: append(mut, body...), how: "suplink-count-wraps-32bit", huge: true})
+		}
 	}
 	do(mcase{entry: "chainmsg", in: []byte{}, how: "regression-empty-message"})
 	do(mcase{entry: "consensusmsg", in: []byte{}, how: "regression-empty-message"})
@@ -815,8 +828,11 @@ func runC05(c *Ctx) error {
 		// keep a deterministic sample
 		step := len(hugeCases)/c.N(2500, 12000) + 1
 		var keep []mcase
-		for i := 0; i < len(hugeCases); i += step {
-			keep = append(keep, hugeCases[i])
+		for i := 0; i < len(hugeCases); i++ {
+			// regression and crafted cases are always kept; the systematic stream is sampled
+			if i%step == 0 || hugeCases[i].how != "varint-replace" {
+				keep = append(keep, hugeCases[i])
+			}
 		}
 		hugeCases = keep
 	}
